@@ -5,6 +5,7 @@ import (
 	"fmt"
 	"math"
 	"math/big"
+	"regexp"
 	"strconv"
 	"strings"
 	"unicode/utf8"
@@ -36,6 +37,7 @@ type Printer struct {
 	inSpace   bool
 	// lastTopEnd: end of the last top-level value printed by Top (-1: none / something else followed)
 	lastTopEnd int
+	identEnd   int // len(b) right after the last keyword / identifier value, else stale
 	// bareIVM: the symbol value being printed may be spelled $ion_1_0 without quotes
 	bareIVM bool
 	// SIDOneIn: a symbol whose text the current table defines is spelled $n with
@@ -51,6 +53,7 @@ func (p *Printer) Begin() {
 	p.b = p.b[:0]
 	p.tab = refbin.NewSystemTab()
 	p.lastTopEnd = -1
+	p.identEnd = -1
 }
 
 // SetTable tells the printer which symbol table is in force from here on.
@@ -67,6 +70,9 @@ func (p *Printer) Top(v model.Value) {
 	p.lastTopEnd = len(p.b)
 	p.space(true)
 }
+
+// identToken: a keyword (null, null.int, true, nan, ...) or an identifier symbol.
+var identToken = regexp.MustCompile(`^[A-Za-z_$][A-Za-z0-9_$]*(\.[a-z]+)?$`)
 
 // abut removes the whitespace b[wsStart:next] between two values where the
 // grammar needs none: the second starts with an opening bracket or a double
@@ -88,6 +94,9 @@ func (p *Printer) abut(wsStart, next int) int {
 		return next
 	}
 	p.b = append(p.b[:wsStart], p.b[next:]...)
+	if p.identEnd >= next {
+		p.identEnd -= next - wsStart
+	}
 	return wsStart
 }
 
@@ -282,9 +291,9 @@ func (p *Printer) space(required bool) {
 		}
 	case k == 8:
 		p.Choices["comment.block"]++
-		if n := len(p.b); n > 0 && strings.IndexByte(")]}\",", p.b[n-1]) >= 0 && p.C.Intn(2) == 0 {
-			// directly behind a closing bracket, a double quote or a comma: no
-			// whitespace in front of the comment
+		if n := len(p.b); n > 0 && (strings.IndexByte(")]}\",", p.b[n-1]) >= 0 || n == p.identEnd) && p.C.Intn(2) == 0 {
+			// directly behind a closing bracket, a double quote, a comma, a keyword
+			// or an identifier: no whitespace in front of the comment
 			p.Choices["comment.abutting"]++
 			p.w([]string{"/**/", "/* c */", "//c\n", "/**///\n"}[p.C.Intn(4)])
 			break
@@ -383,6 +392,16 @@ var nullNames = [...]string{"null", "bool", "int", "float", "decimal", "timestam
 
 func (p *Printer) value(v model.Value, c ctx) {
 	p.annotations(v.Ann)
+	if v.IsNull || v.Kind == model.Bool || v.Kind == model.Symbol {
+		// remember where a keyword or identifier ends: a comment may follow it
+		// with no whitespace in between (space, below)
+		start := len(p.b)
+		defer func() {
+			if identToken.Match(p.b[start:]) {
+				p.identEnd = len(p.b)
+			}
+		}()
+	}
 	if v.IsNull {
 		if v.Kind == model.Null {
 			if p.choose("null.null-form", 3) == 2 {
